@@ -46,3 +46,40 @@ Print Assumptions C02_siblings.
 Theorem C02_hints : la_matches_hints = true /\ guards_shape Table.table = true.
 Proof. exact (conj la_matches_hints_ok guards_shape_ok). Qed.
 Print Assumptions C02_hints.
+
+Require Import PyStr Matcher Builder PipelineFacts Sentence SentenceInst.
+
+(* The same for the real pipeline -- the real matcher over text, the real AST builder, any dialect, either mode: every
+   accepted document is a sentence of gherkin.berp.  `run_kinds c` reads the run's log: the kinds under which the
+   lines were handed to the builder, in order, the end of file last (C18_delivery: these are all the lines of the
+   source, each once).  `runR G` is the reference recogniser of the regenerated grammar.  (Generic part: a normal
+   return walks a path of the table -- PathReplay -- and every path of the table is a run of the table read as a
+   nondeterministic automaton -- Sentence.v, side conditions on the table by vm_compute; then C02_language_nfa.)
+   The converse -- a sentence whose lines raise no matcher or builder error is accepted -- is C02_language on the
+   kind-level stub plus correspondence. *)
+Theorem C02_accepted_is_sentence : forall stop toks m b c, wf_ms m ->
+  parse_tokens stop toks m b = Ok tt c -> runR G (run_kinds c) = true.
+Proof. exact pipeline_sentence. Qed.
+Print Assumptions C02_accepted_is_sentence.
+
+From Coq Require Import String.
+Example C02_accepted_is_sentence_sample :
+  match new_matcher Dialects.dialects (PyStr.s2l "en") with
+  | Some m =>
+    match parse_tokens false (scan (PyStr.s2l "# language: en
+@t
+Feature: f
+  free text
+  Scenario Outline: o
+    Given <a>
+      | x |
+    @e
+    Examples:
+      | a |
+")) m (new_builder 0) with
+    | Ok _ c => run_kinds c = [KLanguage; KTagLine; KFeatureLine; KOther; KScenarioLine; KStepLine; KTableRow; KTagLine; KExamplesLine; KTableRow; KEOF]
+    | _ => False
+    end
+  | None => False
+  end.
+Proof. vm_compute. reflexivity. Qed.
